@@ -114,4 +114,5 @@ func c39(r *core.Run) {
 	}
 	c39more(r)
 	allSetCoverage(r, "C39.V1")
+	c39Stride(r)
 }
